@@ -1182,7 +1182,7 @@ incoming_harness!(c09_tb_kiss_plain_v3v4, 4, {
     let mut p = any_pkt(false);
     p.stratum = 0;
     let (before, after, p, valid) = incoming_contract(false, p);
-    kani::cover!(valid && p.reference_id == code(b"RATE") && plog(after.remote_min) == plog(before.remote_min) + 1, "RATE step reachable");
+    kani::cover!(valid && p.reference_id == code(b"RATE") && plog(after.remote_min) as i16 == plog(before.remote_min) as i16 + 1, "RATE step reachable");
     kani::cover!(valid && p.reference_id == code(b"RSTR") && after.have_deny, "RSTR marks plain source");
     kani::cover!(valid && p.reference_id == code(b"NTSN"), "NTSN reachable");
     kani::cover!(valid && p.reference_id == code(b"RATE") && plog(before.remote_min) == 127, "RATE arm entered with remote minimum 127 (one-step pre-state)");
@@ -1214,15 +1214,18 @@ incoming_harness!(c09_tb_kiss_nts_v5, 4, {
     let (_before, _after, p, valid) = incoming_contract(true, p);
     kani::cover!(valid && p.poll == 127, "authenticated V5 deny reachable");
 });
-// ---- C12: the version transition table on answers (plain sources, no extension fields)
-incoming_harness!(c12_tb_incoming_transitions_v3v4, 4, {
+// ---- the complete one-call contract of handle_incoming for plain sources and packets without
+// extension fields: version transition table (C12), freshness / at most one measurement (C08), KISS
+// arms incl. the RATE step never exceeding max(limits.max, last poll) (C09, C10), T1..T4 mapping (C05).
+// ~5-8 min each; also listed as extra harnesses of the C08 / C09 / C10 units.
+incoming_harness!(c12_b_incoming_contract_plain_v3v4, 4, {
     let p = any_pkt(false);
     let (before, after, _p, valid) = incoming_contract(false, p);
     kani::cover!(valid && matches!(before.version, ProtocolVersion::V4UpgradingToV5 { tries_left: 1 }) && after.version == ProtocolVersion::V4, "giving up the upgrade reachable");
     kani::cover!(valid && after.version == ProtocolVersion::UpgradedToV5, "upgrade reachable");
     kani::cover!(valid && matches!(after.version, ProtocolVersion::V4UpgradingToV5 { tries_left: 7 }), "countdown reachable");
 });
-incoming_harness!(c12_tb_incoming_transitions_v5, 4, {
+incoming_harness!(c12_b_incoming_contract_plain_v5, 4, {
     let p = any_pkt(true);
     let (before, after, _p, valid) = incoming_contract(false, p);
     kani::cover!(valid && before.version == ProtocolVersion::UpgradedToV5 && after.version == ProtocolVersion::V5, "confirmation reachable");
